@@ -40,7 +40,7 @@ class Session:
         self.src.mkdir(parents=True, exist_ok=True)
         self.world = harness.World(store=store, concurrent=concurrent, flavour=flavour, backend_factory=backend_factory)
         self.store = self.world.store
-        harness.install_clock()
+        harness.install_clock(reset=store is None)      # a new repository starts its own time line (ms since EPOCH stay small for TLC)
         enc = graph != 'plain'
         st = harness.settings(encrypted=enc, min_length=min_length, max_length=max_length, cipher=cipher, hashing=hashing)
         cache_of = (lambda u: cache.get(u) if isinstance(cache, dict) else cache)
@@ -364,7 +364,7 @@ class Session:
             d['wellformed'] = True      # of the family, private part unreadable by every holder we have
             return d
         ts = _dt.datetime.fromisoformat(data['utc_timestamp'])
-        d['ts'] = int((ts - EPOCH).total_seconds())
+        d['ts'] = (ts - EPOCH) // _dt.timedelta(milliseconds=1)      # ms: distinct timestamps inside one second stay distinct
         d['stamp'] = ts.isoformat(sep=' ', timespec='seconds')
         d['note'] = data.get('note')
         ok = True
